@@ -162,6 +162,28 @@ def run(tier):
             if not (pv == lv + jv and pc == -(lv + jv) and np.array_equal(pg, lg + jg) and np.array_equal(pcg, -(lg + jg))):
                 ck.violation("posterior = likelihood + prior (value, gradient, cost, cost-gradient)",
                              {**ident, "posterior": pv, "likelihood": lv, "prior": jv, "cost": pc}, site="Posterior")
+            # the same with every prior object (joint, and the bare component when it covers all variables in order), calling
+            # gradient and cost-gradient repeatedly: each call returns likelihood gradient + the reference prior gradient
+            wantg_all = np.array([fr(g) for g in c["grad"]])
+            types_ = {v: x["type"] for x in layout for v in x["vars"]}
+            insup_all = all((types_[v + 1] == "G") or (types_[v + 1] == "E" and theta[v] >= 0) or (types_[v + 1] == "U" and -(v + 1) <= theta[v] <= v + 3)
+                            for v in range(n))
+            for cname, obj in objs:
+                if cname != "JointPrior" and [v - 1 for v in layout[0]["vars"]] != list(range(n)):
+                    continue
+                if not insup_all:
+                    continue
+                post2 = Posterior(likelihood=like, prior=obj)
+                with np.errstate(all="ignore"):
+                    seq = [np.array(post2.gradient(theta), dtype=float), -np.array(post2.cost_gradient(theta), dtype=float),
+                           np.array(post2.gradient(theta), dtype=float), -np.array(post2.cost_gradient(theta), dtype=float)]
+                    pv2 = [float(post2(theta)), -float(post2.cost(theta)), float(post2(theta))]
+                wantp = lg + wantg_all
+                if not all(g.shape == wantp.shape and all(SL.close(a, b, scale=10.0) for a, b in zip(g, wantp)) for g in seq) \
+                        or not all(SL.close(v, lv + SL.value(c["value"]), scale=SL.magnitude(c["value"]) + abs(lv)) for v in pv2):
+                    ck.violation("posterior = likelihood + prior (value, gradient, cost, cost-gradient), on every call",
+                                 {**ident, "prior_class": cname, "want_gradient": wantp, "gradient_calls": seq, "value_calls": pv2},
+                                 site=f"Posterior:{cname}:repeat")
             # initial guesses: best of the prior draws in increasing cost
             if c["inside"] and len(events) < (400 if tier == "quick" else 3000):
                 fake.vary = True
